@@ -14,11 +14,14 @@ structure LogOK (stored : List UMsg) : Prop where
   pay : ∀ m ∈ stored, m.payload = payloadOf m.id
 
 theorem LogOK.content {stored : List UMsg} (h : LogOK stored) {i q pl : Nat} (hm : InLog stored i q pl) :
-    1 ≤ q ∧ (stored.map (·.id))[q - 1]? = some i ∧ pl = payloadOf i := by
+    1 ≤ q ∧ (stored.map (·.id))[q - 1]? = some i ∧ pl = payloadOf i ∧ q ≤ stored.length := by
   obtain ⟨j, hj⟩ := List.getElem?_of_mem hm
   have hq := h.idx j _ hj
+  have hjl : j < stored.length := by
+    apply Classical.byContradiction; intro hc
+    rw [List.getElem?_eq_none (by omega)] at hj; cases hj
   simp only at hq
-  refine ⟨by omega, ?_, h.pay _ hm⟩
+  refine ⟨by omega, ?_, h.pay _ hm, by omega⟩
   have : q - 1 = j := by omega
   rw [this, List.getElem?_map, hj]; rfl
 
@@ -33,6 +36,8 @@ structure CLoc (c : Consumer) (stored : List UMsg) (psess : Nat) : Prop where
   ce : c.expectedSeq = c.confirmedSeq + 1
   /-- the unchunked consumer controller never takes its terminal `fail` path -/
   nf : c.failed = false
+  /-- the consumer controller has confirmed nothing the producer controller has not stored -/
+  cle : c.confirmedSeq ≤ stored.length
 
 /-- the Spec monitor agrees with the consumer controller -/
 structure CMon (c : Consumer) (stored : List UMsg) (m : Mon) : Prop where
@@ -45,8 +50,8 @@ structure CMon (c : Consumer) (stored : List UMsg) (m : Mon) : Prop where
 
 /-- what the link invariants demand of one output of the consumer controller -/
 def COutOK (c' : Consumer) (stored : List UMsg) : COut → Prop
-  | .toProducer (.request _ _ _ u _) => u ≤ c'.requestUpToSeq ∧ c'.session ≠ 0
-  | .toProducer (.ack _ _ _) => c'.session ≠ 0
+  | .toProducer (.request _ _ cf u _) => u ≤ c'.requestUpToSeq ∧ c'.session ≠ 0 ∧ cf ≤ c'.confirmedSeq ∧ u = cf + c'.window
+  | .toProducer (.ack _ _ cf) => c'.session ≠ 0 ∧ cf ≤ c'.confirmedSeq
   | .toProducer (.register _) => True
   | .toUser d => InLog stored d.id d.seq d.payload ∧ d.session = c'.session ∧ c'.session ≠ 0
 
@@ -59,6 +64,7 @@ structure CTrans (stored : List UMsg) (psess : Nat) (c : Consumer) (m : Mon) (c'
   sess : c.session ≠ 0 → c'.session = c.session
   dem : (m.run (obsOfC o)).okDemand = m.okDemand
   wnd : c'.window = c.window
+  cmono : c.confirmedSeq ≤ c'.confirmedSeq
 
 theorem obsOfC_append (a b : List COut) : obsOfC (a ++ b) = obsOfC a ++ obsOfC b := by
   induction a with
@@ -69,14 +75,15 @@ theorem obsOfC_append (a b : List COut) : obsOfC (a ++ b) = obsOfC a ++ obsOfC b
     | toUser m => simp [obsOfC, ih]
 
 theorem COutOK.lift {c c' : Consumer} {stored : List UMsg} {x : COut} (h : COutOK c stored x)
-    (hm : c.requestUpToSeq ≤ c'.requestUpToSeq) (hs : c.session ≠ 0 → c'.session = c.session) :
+    (hm : c.requestUpToSeq ≤ c'.requestUpToSeq) (hs : c.session ≠ 0 → c'.session = c.session)
+    (hw : c'.window = c.window) (hc : c.confirmedSeq ≤ c'.confirmedSeq) :
     COutOK c' stored x := by
   cases x with
   | toProducer m =>
     cases m with
     | register => trivial
-    | request s n cf u v => exact ⟨by have := h.1; omega, by rw [hs h.2]; exact h.2⟩
-    | ack s n cf => exact (by rw [hs h]; exact h : c'.session ≠ 0)
+    | request s n cf u v => exact ⟨by have := h.1; omega, by rw [hs h.2.1]; exact h.2.1, by have := h.2.2.1; omega, by rw [hw]; exact h.2.2.2⟩
+    | ack s n cf => exact ⟨by rw [hs h.1]; exact h.1, by have := h.2; omega⟩
   | toUser d => exact ⟨h.1, by rw [hs h.2.2]; exact h.2.1, by rw [hs h.2.2]; exact h.2.2⟩
 
 /-- composition of handler fragments -/
@@ -85,10 +92,10 @@ theorem CTrans.comp {stored : List UMsg} {psess : Nat} {c c1 c2 : Consumer} {m :
     CTrans stored psess c m c2 (o1 ++ o2) := by
   have hrun : m.run (obsOfC (o1 ++ o2)) = (m.run (obsOfC o1)).run (obsOfC o2) := by
     rw [obsOfC_append, Mon.run_append]
-  refine ⟨h2.loc, hrun ▸ h2.mon, ?_, Nat.le_trans h1.mono h2.mono, ?_, ?_, by rw [h2.wnd, h1.wnd]⟩
+  refine ⟨h2.loc, hrun ▸ h2.mon, ?_, Nat.le_trans h1.mono h2.mono, ?_, ?_, by rw [h2.wnd, h1.wnd], Nat.le_trans h1.cmono h2.cmono⟩
   · intro x hx
     rcases List.mem_append.mp hx with hx | hx
-    · exact (h1.outs x hx).lift h2.mono h2.sess
+    · exact (h1.outs x hx).lift h2.mono h2.sess h2.wnd h2.cmono
     · exact h2.outs x hx
   · intro h0
     rw [h2.sess (by rw [h1.sess h0]; exact h0), h1.sess h0]
@@ -97,7 +104,7 @@ theorem CTrans.comp {stored : List UMsg} {psess : Nat} {c c1 c2 : Consumer} {m :
 /-- the empty fragment -/
 theorem CTrans.refl {stored : List UMsg} {psess : Nat} {c : Consumer} {m : Mon}
     (hL : CLoc c stored psess) (hM : CMon c stored m) : CTrans stored psess c m c [] :=
-  ⟨hL, hM, by simp, Nat.le_refl _, fun _ => rfl, rfl, rfl⟩
+  ⟨hL, hM, by simp, Nat.le_refl _, fun _ => rfl, rfl, rfl, Nat.le_refl _⟩
 
 variable {stored : List UMsg} {psess : Nat} {c : Consumer} {m : Mon}
 
@@ -106,7 +113,7 @@ theorem CTrans.frame (hL : CLoc c stored psess) (hM : CMon c stored m) (c' : Con
     (h1 : c'.session = c.session) (h2 : c'.requestUpToSeq = c.requestUpToSeq) (h3 : c'.inFlight = c.inFlight)
     (h4 : c'.expectedSeq = c.expectedSeq) (h5 : c'.buffer = c.buffer) (h6 : c'.confirmedSeq = c.confirmedSeq)
     (h7 : c'.window = c.window) (h8 : c'.failed = c.failed := by rfl) : CTrans stored psess c m c' [] := by
-  refine ⟨⟨?_, ?_, ?_, ?_, ?_, ?_, ?_, h8 ▸ hL.nf⟩, ⟨hM.ids, ?_, ?_, ?_, hM.ord, hM.win⟩, by simp, by omega, fun _ => h1, rfl, h7⟩
+  refine ⟨⟨?_, ?_, ?_, ?_, ?_, ?_, ?_, h8 ▸ hL.nf, h6 ▸ hL.cle⟩, ⟨hM.ids, ?_, ?_, ?_, hM.ord, hM.win⟩, by simp, by omega, fun _ => h1, rfl, h7, by omega⟩
   · rw [h1]; exact hL.sess
   · rw [h1, h2, h3, h4, h5, h6]; exact hL.fresh
   · rw [h5]; exact hL.buf
@@ -133,9 +140,9 @@ theorem CTrans.sendRequest (hL : CLoc c stored psess) (hM : CMon c stored m) (v 
     have hrun : m.run (obsOfC [COut.toProducer (CMsg.request c.session c.nonce c.confirmedSeq (c.confirmedSeq + c.window) v)])
         = { m with maxReq := c.confirmedSeq + c.window } := by
       simp only [obsOfC, Mon.run]; exact Mon.step_requested _ _ hmr
-    refine ⟨⟨hL.sess, fun h => absurd h hg.2, hL.buf, hL.buflen, hL.infl, Nat.le_refl _, hL.ce, hL.nf⟩, ?_, ?_, hL.win, fun _ => rfl, ?_, rfl⟩
+    refine ⟨⟨hL.sess, fun h => absurd h hg.2, hL.buf, hL.buflen, hL.infl, Nat.le_refl _, hL.ce, hL.nf, hL.cle⟩, ?_, ?_, hL.win, fun _ => rfl, ?_, rfl, Nat.le_refl _⟩
     · rw [hrun]; exact ⟨hM.ids, hM.infl, hM.idle, rfl, hM.ord, hM.win⟩
-    · intro x hx; simp at hx; subst hx; exact ⟨Nat.le_refl _, hg.2⟩
+    · intro x hx; simp at hx; subst hx; exact ⟨Nat.le_refl _, hg.2, Nat.le_refl _, rfl⟩
     · rw [hrun]
 
 /-- `sendAck` (no state change) -/
@@ -146,9 +153,9 @@ theorem CTrans.sendAck (hL : CLoc c stored psess) (hM : CMon c stored m) :
   · exact CTrans.refl hL hM
   · rename_i hg
     simp at hg
-    refine ⟨hL, ?_, ?_, Nat.le_refl _, fun _ => rfl, ?_, rfl⟩
+    refine ⟨hL, ?_, ?_, Nat.le_refl _, fun _ => rfl, ?_, rfl, Nat.le_refl _⟩
     · simpa [obsOfC, Mon.run] using hM
-    · intro x hx; simp at hx; subst hx; exact hg.2
+    · intro x hx; simp at hx; subst hx; exact ⟨hg.2, Nat.le_refl _⟩
     · simp [obsOfC, Mon.run]
 
 theorem Mon.step_present_new (m : Mon) (i q pl : Nat) (h1 : q = m.last + 1) (h2 : m.lastConfirmed = true)
@@ -172,12 +179,12 @@ theorem CTrans.deliver (hLog : LogOK stored) (hL : CLoc c stored psess) (hM : CM
     (hn : c.inFlight = none) (hq : b.seq = c.expectedSeq) (hb : InLog stored b.id b.seq b.payload) (hs : c.session ≠ 0) :
     CTrans stored psess c m (c.deliver b).1 (c.deliver b).2 := by
   unfold Consumer.deliver
-  obtain ⟨hq1, hid, hpl⟩ := hLog.content hb
+  obtain ⟨hq1, hid, hpl, _⟩ := hLog.content hb
   have hidle := hM.idle hn
   have hrun : m.run (obsOfC [COut.toUser ⟨c.session, b.id, b.seq, b.payload⟩]) = { m with last := b.seq, lastConfirmed := false } := by
     simp only [obsOfC, Mon.run]
     exact Mon.step_present_new _ _ _ _ (by omega) hidle.2 hM.ord hq1 (by rw [hM.ids]; exact hid) hpl
-  refine ⟨⟨hL.sess, fun h => absurd h hs, hL.buf, hL.buflen, ?_, hL.win, hL.ce, hL.nf⟩, ?_, ?_, Nat.le_refl _, fun _ => rfl, ?_, rfl⟩
+  refine ⟨⟨hL.sess, fun h => absurd h hs, hL.buf, hL.buflen, ?_, hL.win, hL.ce, hL.nf, hL.cle⟩, ?_, ?_, Nat.le_refl _, fun _ => rfl, ?_, rfl, Nat.le_refl _⟩
   · intro d hd; simp at hd; subst hd; exact ⟨hb, rfl, hq⟩
   · rw [hrun]
     refine ⟨hM.ids, ?_, ?_, hM.req, hM.ord, hM.win⟩
@@ -190,19 +197,19 @@ theorem CTrans.deliver (hLog : LogOK stored) (hL : CLoc c stored psess) (hM : CM
 theorem CTrans.retell (hLog : LogOK stored) (hL : CLoc c stored psess) (hM : CMon c stored m) (d : Delivery)
     (hd : c.inFlight = some d) (hs : c.session ≠ 0) : CTrans stored psess c m c [.toUser d] := by
   obtain ⟨hb, hds, hdq⟩ := hL.infl d hd
-  obtain ⟨hq1, hid, hpl⟩ := hLog.content hb
+  obtain ⟨hq1, hid, hpl, _⟩ := hLog.content hb
   obtain ⟨hl, hlc⟩ := hM.infl d hd
   have hrun : m.run (obsOfC [COut.toUser d]) = m := by
     simp only [obsOfC, Mon.run]
     exact Mon.step_present_again _ _ _ _ hl.symm hlc hM.ord hq1 (by rw [hM.ids]; exact hid) hpl
-  refine ⟨hL, by rw [hrun]; exact hM, ?_, Nat.le_refl _, fun _ => rfl, by rw [hrun], rfl⟩
+  refine ⟨hL, by rw [hrun]; exact hM, ?_, Nat.le_refl _, fun _ => rfl, by rw [hrun], rfl, Nat.le_refl _⟩
   intro x hx; simp at hx; subst hx; exact ⟨hb, hds, hs⟩
 
 /-- replacing the buffer by entries that are all in the log and fit the window -/
 theorem CTrans.setBuffer (hL : CLoc c stored psess) (hM : CMon c stored m) (l : List BMsg)
     (h1 : ∀ b ∈ l, InLog stored b.id b.seq b.payload) (h2 : l.length ≤ c.window) (h3 : c.session = 0 → l = []) :
     CTrans stored psess c m { c with buffer := l } [] := by
-  refine ⟨⟨hL.sess, ?_, h1, h2, hL.infl, hL.win, hL.ce, hL.nf⟩, ⟨hM.ids, hM.infl, hM.idle, hM.req, hM.ord, hM.win⟩, by simp, Nat.le_refl _, fun _ => rfl, rfl, rfl⟩
+  refine ⟨⟨hL.sess, ?_, h1, h2, hL.infl, hL.win, hL.ce, hL.nf, hL.cle⟩, ⟨hM.ids, hM.infl, hM.idle, hM.req, hM.ord, hM.win⟩, by simp, Nat.le_refl _, fun _ => rfl, rfl, rfl, Nat.le_refl _⟩
   intro h0
   obtain ⟨a, b, c', _, e⟩ := hL.fresh h0
   exact ⟨a, b, c', h3 h0, e⟩
@@ -210,7 +217,7 @@ theorem CTrans.setBuffer (hL : CLoc c stored psess) (hM : CMon c stored m) (l : 
 /-- sending a RegisterConsumer changes nothing the invariant reads -/
 theorem CTrans.emitRegister (hL : CLoc c stored psess) (hM : CMon c stored m) (n : Nat) :
     CTrans stored psess c m c [.toProducer (.register n)] := by
-  refine ⟨hL, by simpa [obsOfC, Mon.run] using hM, ?_, Nat.le_refl _, fun _ => rfl, by simp [obsOfC, Mon.run], rfl⟩
+  refine ⟨hL, by simpa [obsOfC, Mon.run] using hM, ?_, Nat.le_refl _, fun _ => rfl, by simp [obsOfC, Mon.run], rfl, Nat.le_refl _⟩
   intro x hx; simp at hx; subst hx; trivial
 
 theorem CTrans.register (hL : CLoc c stored psess) (hM : CMon c stored m) :
@@ -314,8 +321,8 @@ theorem CTrans.handleRegAck (hL : CLoc c stored psess) (hM : CMon c stored m) (s
     subst hnx hs
     have hidle := hM.idle f2
     have h2 : CTrans stored s c m { c with sawValidTraffic := true, session := s, expectedSeq := 1, confirmedSeq := 1 - 1, buffer := [], inFlight := none } [] := by
-      refine ⟨⟨Or.inr rfl, fun h => absurd h hps, by simp, by simp, by simp, by simp [f1], rfl, hL.nf⟩, ?_,
-        by simp, by simp [f1], fun h => absurd h0 h, rfl, rfl⟩
+      refine ⟨⟨Or.inr rfl, fun h => absurd h hps, by simp, by simp, by simp, by simp [f1], rfl, hL.nf, Nat.zero_le _⟩, ?_,
+        by simp, by simp [f1], fun h => absurd h0 h, rfl, rfl, by simp [f5]⟩
       show CMon _ _ m
       exact ⟨hM.ids, by simp, fun _ => ⟨by simpa [f3] using hidle.1, hidle.2⟩, by simpa [f1] using hM.req, hM.ord, hM.win⟩
     have h3 := CTrans.sendRequest h2.loc h2.mon true
@@ -377,12 +384,13 @@ theorem Mon.step_confirm_okDemand (m : Mon) (q : Nat) : (m.step (.confirm q)).ok
 theorem handleConfirmed_ok (hLog : LogOK stored) (hL : CLoc c stored psess) (hM : CMon c stored m) (s i q now : Nat)
     (hin : ∃ pl0, InLog stored i q pl0) (hs : s = c.session) :
     ∃ c0 : Consumer, c0.requestUpToSeq = c.requestUpToSeq ∧ c0.session = c.session ∧ c0.window = c.window ∧
+      c.confirmedSeq ≤ c0.confirmedSeq ∧
       CTrans stored psess c0 (m.step (.confirm q)) (c.handleConfirmed s i q now).1 (c.handleConfirmed s i q now).2 := by
   obtain ⟨pl0, hin⟩ := hin
   unfold Consumer.handleConfirmed
   split
   · rename_i hn
-    refine ⟨c, rfl, rfl, rfl, CTrans.refl hL ?_⟩
+    refine ⟨c, rfl, rfl, rfl, Nat.le_refl _, CTrans.refl hL ?_⟩
     have hidle := hM.idle hn
     have : m.step (.confirm q) = m := by
       simp only [Mon.step]; split
@@ -394,7 +402,7 @@ theorem handleConfirmed_ok (hLog : LogOK stored) (hL : CLoc c stored psess) (hM 
     obtain ⟨hml, hmc⟩ := hM.infl d hd
     split
     · rename_i hmis
-      refine ⟨c, rfl, rfl, rfl, CTrans.refl hL ?_⟩
+      refine ⟨c, rfl, rfl, rfl, Nat.le_refl _, CTrans.refl hL ?_⟩
       have hne : q ≠ d.seq := by
         intro he
         subst he
@@ -419,12 +427,12 @@ theorem handleConfirmed_ok (hLog : LogOK stored) (hL : CLoc c stored psess) (hM 
         exact ⟨fun b hb => mem_dropWhile _ _ _ hb, (List.dropWhile_sublist _).length_le, trivial⟩
       obtain ⟨e1, e2, e3, e4, e5, e6, e7, e8, e9⟩ := e
       have hL0 : CLoc c0 stored psess := by
-        refine ⟨e2 ▸ hL.sess, fun h => absurd (e2 ▸ h) hs0, fun b hb => hL.buf b (e7 b hb), ?_, by simp [e4], ?_, by rw [e5, e6], e9 ▸ hL.nf⟩
+        refine ⟨e2 ▸ hL.sess, fun h => absurd (e2 ▸ h) hs0, fun b hb => hL.buf b (e7 b hb), ?_, by simp [e4], ?_, by rw [e5, e6], e9 ▸ hL.nf, by rw [e6]; exact (hLog.content hdl).2.2.2⟩
         · rw [e3]; exact Nat.le_trans e8 hL.buflen
         · rw [e1, e6, e3]; have := hL.win; have := hL.ce; omega
       have hM0 : CMon c0 stored { m with lastConfirmed := true } :=
         ⟨hM.ids, by simp [e4], fun _ => ⟨by simp only; rw [e5, hml], rfl⟩, by simp only; rw [e1]; exact hM.req, hM.ord, hM.win⟩
-      refine ⟨c0, e1, e2, e3, ?_⟩
+      refine ⟨c0, e1, e2, e3, by rw [e6]; have := hL.ce; omega, ?_⟩
       simp only []
       have h2 := CTrans.batchConfirmation hL0 hM0
       have h3 := CTrans.drain hLog h2.loc h2.mon
@@ -486,6 +494,7 @@ structure CPost (stored : List UMsg) (psess : Nat) (c : Consumer) (m : Mon) (cin
   sess : c.session ≠ 0 → c'.session = c.session
   dem : (postMon m cin c' o).okDemand = m.okDemand
   wnd : c'.window = c.window
+  cmono : c.confirmedSeq ≤ c'.confirmedSeq
 
 theorem Mon.step_cstate {c : Consumer} {m : Mon} (hL : CLoc c stored psess) (hM : CMon c stored m) :
     m.step (cstateOf c) = m := by
@@ -497,10 +506,11 @@ theorem Mon.step_cstate {c : Consumer} {m : Mon} (hL : CLoc c stored psess) (hM 
 
 theorem CPost.of_trans {cin : CIn} {c0 c' : Consumer} {o : List COut}
     (h : CTrans stored psess c0 (preMon m cin) c' o) (e1 : c0.requestUpToSeq = c.requestUpToSeq)
-    (e2 : c0.session = c.session) (e3 : c0.window = c.window) (e4 : (preMon m cin).okDemand = m.okDemand) :
+    (e2 : c0.session = c.session) (e3 : c0.window = c.window) (e4 : (preMon m cin).okDemand = m.okDemand)
+    (e5 : c.confirmedSeq ≤ c0.confirmedSeq := by exact Nat.le_refl _) :
     CPost stored psess c m cin c' o := by
   have hst : postMon m cin c' o = (preMon m cin).run (obsOfC o) := Mon.step_cstate h.loc h.mon
-  exact ⟨h.loc, hst ▸ h.mon, h.outs, e1 ▸ h.mono, e2 ▸ h.sess, by rw [hst, h.dem, e4], by rw [h.wnd, e3]⟩
+  exact ⟨h.loc, hst ▸ h.mon, h.outs, e1 ▸ h.mono, e2 ▸ h.sess, by rw [hst, h.dem, e4], by rw [h.wnd, e3], Nat.le_trans e5 h.cmono⟩
 
 /-- every consumer-controller handler call re-establishes the consumer half of the invariant -/
 theorem CPost.handle (hLog : LogOK stored) (hps : psess ≠ 0) (hL : CLoc c stored psess) (hM : CMon c stored m)
@@ -515,8 +525,8 @@ theorem CPost.handle (hLog : LogOK stored) (hps : psess ≠ 0) (hL : CLoc c stor
     · rename_i s i q pl
       exact CPost.of_trans (cin := .fromProducer (.sequenced s i q pl)) (CTrans.handleSequenced hLog hL hM s i q pl now hin) rfl rfl rfl rfl
     · rename_i s i q
-      obtain ⟨c0, e1, e2, e3, h⟩ := handleConfirmed_ok hLog hL hM s i q now hin.1 hin.2
-      exact CPost.of_trans (cin := .confirmed s i q) h e1 e2 e3 (Mon.step_confirm_okDemand _ _)
+      obtain ⟨c0, e1, e2, e3, e5, h⟩ := handleConfirmed_ok hLog hL hM s i q now hin.1 hin.2
+      exact CPost.of_trans (cin := .confirmed s i q) h e1 e2 e3 (Mon.step_confirm_okDemand _ _) e5
     · exact CPost.of_trans (cin := .tick) (CTrans.handleTick hLog hL hM now) rfl rfl rfl rfl
 
 end GoaktVerif.C42
